@@ -13,6 +13,7 @@ import (
 	"io"
 	"net"
 	"net/netip"
+	"os"
 	"runtime"
 	"sync"
 	"sync/atomic"
@@ -111,6 +112,8 @@ type Write struct {
 // Conn is the corebgp-side endpoint of a simulated TCP connection.
 type Conn struct {
 	wmu      sync.Mutex // serialises slow writes
+	rdl, wdl time.Time  // read / write deadlines
+	rdlTimer *time.Timer
 	ID       int
 	Inbound  bool // accepted by corebgp's listener (remote initiated)
 	net      *Net
@@ -181,6 +184,9 @@ func (c *Conn) Read(p []byte) (int, error) {
 		if c.remoteClosed {
 			return 0, io.EOF
 		}
+		if !c.rdl.IsZero() && !time.Now().Before(c.rdl) {
+			return 0, &net.OpError{Op: "read", Net: "tcp", Err: timeoutError{}}
+		}
 		c.cond.Wait()
 	}
 }
@@ -200,6 +206,11 @@ func (c *Conn) Write(p []byte) (int, error) {
 	defer c.mu.Unlock()
 	w := Write{Seq: c.net.NextSeq(), At: c.net.Since(), Data: append([]byte(nil), p...)}
 	switch {
+	case !c.localClosed && !c.wdl.IsZero() && !time.Now().Before(c.wdl):
+		// an expired write deadline fails every write at once
+		w.Failed = true
+		c.writes = append(c.writes, w)
+		return 0, &net.OpError{Op: "write", Net: "tcp", Err: timeoutError{}}
 	case c.localClosed:
 		w.Failed = true
 		c.writes = append(c.writes, w)
@@ -280,11 +291,51 @@ func (c *Conn) Close() error {
 	return nil
 }
 
-func (c *Conn) LocalAddr() net.Addr                { return c.local }
-func (c *Conn) RemoteAddr() net.Addr               { return c.remote }
-func (c *Conn) SetDeadline(t time.Time) error      { return nil }
-func (c *Conn) SetReadDeadline(t time.Time) error  { return nil }
-func (c *Conn) SetWriteDeadline(t time.Time) error { return nil }
+func (c *Conn) LocalAddr() net.Addr  { return c.local }
+func (c *Conn) RemoteAddr() net.Addr { return c.remote }
+
+// Deadlines behave as on a real net.Conn: absolute instants (virtual time
+// inside the bubble) that apply to all future and pending calls until changed;
+// the zero time clears them. corebgp itself sets none on the pinned tree.
+func (c *Conn) SetDeadline(t time.Time) error {
+	c.SetReadDeadline(t)
+	return c.SetWriteDeadline(t)
+}
+
+func (c *Conn) SetReadDeadline(t time.Time) error {
+	c.mu.Lock()
+	defer c.mu.Unlock()
+	c.rdl = t
+	if c.rdlTimer != nil {
+		c.rdlTimer.Stop()
+		c.rdlTimer = nil
+	}
+	if !t.IsZero() {
+		c.rdlTimer = time.AfterFunc(time.Until(t), func() {
+			c.mu.Lock()
+			c.cond.Broadcast()
+			c.mu.Unlock()
+		})
+	}
+	c.cond.Broadcast()
+	return nil
+}
+
+func (c *Conn) SetWriteDeadline(t time.Time) error {
+	c.mu.Lock()
+	defer c.mu.Unlock()
+	c.wdl = t
+	return nil
+}
+
+type timeoutError struct{}
+
+func (timeoutError) Error() string   { return "i/o timeout" }
+func (timeoutError) Timeout() bool   { return true }
+func (timeoutError) Temporary() bool { return true }
+func (timeoutError) Is(err error) bool {
+	return err == os.ErrDeadlineExceeded
+}
 
 // RemoteSend queues b for the reader, split at the given cut offsets (strictly
 // increasing, within (0,len(b))); each piece is one chunk. It never blocks.
